@@ -88,6 +88,11 @@ theorem engine_async_close_shuts_down_holds : (engine_async_close_shuts_down && 
 theorem shutdown_threads_skipped_iff (t : Bool) : shutdown_threads_skipped t = !t := by simp [shutdown_threads_skipped]
 theorem shutdown_threads_stops_loop_holds : shutdown_threads_stops_loop = true := by decide
 theorem shutdown_threads_forgets_thread_holds : shutdown_threads_forgets_thread = true := by decide
+/-- the timeout handle of `wait_for_future_set_or_timeout` and `_resolve_all_futures_to_none` both resolve a future through
+`_set_future_none_if_not_done`, which leaves a finished future alone -/
+theorem waiter_timer_guarded_holds : waiter_timer_guarded = true := by decide
+theorem resolve_all_guarded_holds : resolve_all_guarded = true := by decide
+theorem waiter_guard_skips_done : waiter_guard_sets true = false := by simp [waiter_guard_sets]
 /-- `Zeroconf.started` -/
 theorem started_iff (d s : Bool) : started d true s = (!d && s) := by simp [started]
 
